@@ -13,6 +13,21 @@ pub enum OutMode {
     Rm3,
     /// `>>$3`: append to the $3 file without truncating it first
     Append,
+    /// `ln -s <nowhere> $3`: $3 is a symbolic link whose destination does not
+    /// exist (t/360-symlinks builds such targets); nothing on stdout
+    Link,
+    /// the same plus the output on stdout: two outputs, status 207
+    LinkBoth,
+}
+
+/// What a snapshot shows for a symbolic link that is a file of the project.
+pub fn symlink_bytes(dest: &str) -> Vec<u8> {
+    format!("@symlink -> {}\n", dest).into_bytes()
+}
+
+/// Destination of the dangling link the `link` output modes create for `$1`.
+pub fn link_dest(arg1: &str) -> String {
+    format!("nowhere-{}", arg1.rsplit('/').next().unwrap_or(arg1))
 }
 
 impl OutMode {
@@ -25,6 +40,8 @@ impl OutMode {
             OutMode::Direct => "direct",
             OutMode::Rm3 => "rm3",
             OutMode::Append => "append",
+            OutMode::Link => "link",
+            OutMode::LinkBoth => "linkboth",
         }
     }
     pub fn parse(s: &str) -> OutMode {
@@ -35,6 +52,8 @@ impl OutMode {
             "direct" => OutMode::Direct,
             "rm3" => OutMode::Rm3,
             "append" => OutMode::Append,
+            "link" => OutMode::Link,
+            "linkboth" => OutMode::LinkBoth,
             _ => OutMode::Stdout,
         }
     }
